@@ -624,6 +624,19 @@ impl TransportManager {
 
         tracing::debug!(target: LOG_TARGET, address = ?address_record.address(), "dial address");
 
+        // The transports authenticate the remote against the first `/p2p` component of the address
+        // while the dial is tracked for the last one. Refuse addresses where the two can differ.
+        let num_peer_ids = address_record
+            .as_ref()
+            .iter()
+            .filter(|protocol| std::matches!(protocol, Protocol::P2p(_)))
+            .count();
+        if num_peer_ids != 1 {
+            return Err(Error::TransportNotSupported(
+                address_record.address().clone(),
+            ));
+        }
+
         let mut protocol_stack = address_record.as_ref().iter();
         match protocol_stack
             .next()
